@@ -54,6 +54,8 @@ def same(a, b, tol=1e-12):
         u, v = np.asarray(u), np.asarray(v)
         if u.shape != v.shape:
             return False
+        if tol == 0.0 and u.dtype != v.dtype:
+            return False  # "bit-identical" includes the dtype (a weakly typed leaf that loses its weak flag changes the promotion)
         if not np.allclose(u, v, rtol=tol, atol=tol, equal_nan=True):
             return False
     return True
@@ -170,6 +172,10 @@ def keyed_builders():
     yield "TriangularAffine(lower)", (lambda k: tri(k, True)), None
     yield "TriangularAffine(upper)", (lambda k: tri(k, False)), None
     yield "Affine(arrays)", (lambda k: B.Affine(jr.normal(k, (3,)), jnp.exp(0.3 * jr.normal(jr.fold_in(k, 1), (3,))))), None
+    # parameters given as PYTHON scalars (the constructors must turn them into ordinary, strongly typed float leaves)
+    yield "Affine(python floats)", (lambda k: B.Affine(0.5 + float(jr.uniform(k)), 2.5)), None
+    yield "Loc(python float)", (lambda k: B.Loc(0.5 + float(jr.uniform(k)))), None
+    yield "Scale(python float)", (lambda k: B.Scale(1.5 + float(jr.uniform(k)))), None
     yield "Coupling", (lambda k: B.Coupling(k, transformer=B.Affine(), untransformed_dim=1, dim=3, cond_dim=2, nn_width=4, nn_depth=1)), (2,)
     yield "MaskedAutoregressive", (lambda k: B.MaskedAutoregressive(k, transformer=B.Affine(), dim=3, cond_dim=2, nn_width=4, nn_depth=1)), (2,)
     yield "Planar", (lambda k: B.Planar(k, dim=3, cond_dim=2, negative_slope=0.1, width_size=4, depth=1)), (2,)
@@ -212,6 +218,22 @@ def fresh_model_checks(rng):
             except NotImplementedError:
                 continue
             out.append((name, "fresh:inverse_and_log_det", same(r.inverse_and_log_det(x, cond), ia, 0.0), "", True))
+            # narrower input dtype than the parameters: results (values AND dtypes) must not depend on having been through the serialiser.
+            # Uses the model AS CONSTRUCTED (a perturbation would re-type every leaf); objects that do not accept float32 input under x64
+            # at all (a Scan whose carry starts as a Python 0) are skipped.
+            try:
+                a0 = mk(jr.PRNGKey(s1))
+                x32 = x.astype(jnp.float32)
+                c32 = None if cond is None else cond.astype(jnp.float32)
+                want32 = a0.transform_and_log_det(x32, c32)
+            except Exception:  # noqa: BLE001
+                want32 = None
+            if want32 is not None:
+                buf0 = io.BytesIO()
+                eqx.tree_serialise_leaves(buf0, a0)
+                buf0.seek(0)
+                r0 = eqx.tree_deserialise_leaves(buf0, b)
+                out.append((name, "fresh:float32-input", same(r0.transform_and_log_det(x32, c32), want32, 0.0), "", True))
         except Exception as ex:  # a constructor or the serialiser raising is itself a failure of the round trip
             out.append((name, "fresh:exception", False, type(ex).__name__ + ": " + str(ex)[:160], True))
     return out
